@@ -201,7 +201,7 @@ LEVEL_TEXT = {
                 'the leaf arm of every evaluator returns its payload bit for bit (Verus, all five; Kani f64 / number again).',
     'C20': _V + 'a bracketed group is parsed from level DefaultZero independently of its context (sp_group); every evaluator is a function of its children\'s values: the contract of eval against the recursive specification spec_eval in all five evaluators (Verus), plus per-constructor Kani steps (f64, number).',
 }
-LEVEL_TEXT['C18'] = ('Verus proves the contract of Number::from(f64) (Integer exactly when the value minus its floor is zero and the floor is in [i64::MIN as f64, i64::MAX as f64), the payload being the cast of the floor; Float(value) otherwise) and of Number::from(i64), which every caller in eval_number relies on; the rounding functions of eval_number hand the rounded double to Number::from and the wrapper returns the evaluator's Number unchanged (no conversion on the way out). Kani/CBMC proves two loop-free harnesses over the full input domain (all 2^64 doubles, all i64) that call the real, '
+LEVEL_TEXT['C18'] = ('Verus proves the contract of Number::from(f64) (Integer exactly when the value minus its floor is zero and the floor is in [i64::MIN as f64, i64::MAX as f64), the payload being the cast of the floor; Float(value) otherwise) and of Number::from(i64), which every caller in eval_number relies on; the rounding functions of eval_number hand the rounded double to Number::from and the wrapper returns the Number of the evaluator unchanged (no conversion on the way out). Kani/CBMC proves two loop-free harnesses over the full input domain (all 2^64 doubles, all i64) that call the real, '
                      'unmodified Number::from and assert the exact characterisation of the property; a loop-free full-domain harness is a complete proof.')
 LEVEL_TEXT['C05'] = ('Verus proves for all trees of eval_f64 (any arity, no bound) that every node applies the IEEE / libm primitive the property names to its children\'s values in the stated order, that no node turns a value into Err, '
                      'and that the wrapper returns that value unchanged (the primitives themselves are uninterpreted total functions). Kani/CBMC proves one loop-free harness per Node constructor of eval_f64 over fully symbolic double leaves (every bit pattern): '
